@@ -76,7 +76,13 @@ func doWrite(ctx context.Context, st store.Store, op Op, mt *Mat) error {
 	switch op.K {
 	case "save_new", "save_same", "save_diff":
 		sig := append(mt.Pool[op.Dat].Sig[:0:0], mt.Pool[op.Dat].Sig...)
-		return st.SaveBlockData(ctx, mt.Pool[op.Blk].Header, mt.Pool[op.Dat].Data, &sig)
+		hdr, data := cloneSignedHeader(mt.Pool[op.Blk].Header), cloneData(mt.Pool[op.Dat].Data)
+		err := st.SaveBlockData(ctx, hdr, data, &sig)
+		// the caller goes on using its objects (alias.go)
+		scribbleSignedHeader(hdr)
+		scribbleData(data)
+		scribbleSignature(&sig)
+		return err
 	case "setheight":
 		return st.SetHeight(ctx, op.H)
 	case "state":
